@@ -34,7 +34,7 @@ Definition is_cmp (op : binop) : bool :=
 (* merge_binary_expression: outer (inner x c1) c2  ~~>  op' x c' *)
 Definition merge_binop (outer inner : binop) (c1 c2 : Z) : option (binop * Z) :=
   match outer, inner with
-  | PLUS, PLUS => Some (PLUS, wrap32 (c1 + c2))
+  | PLUS, PLUS => if in32b (c1 + c2) then Some (PLUS, c1 + c2) else None     (* checked_add: declines when the sum wraps *)
   | MUL, MUL => Some (MUL, wrap32 (c1 * c2))
   | (LT | LE | GT | GE | EQ | NE), PLUS => if in32b (c2 - c1) then Some (outer, c2 - c1) else None
   | _, _ => None
